@@ -117,6 +117,7 @@ def effective(configs):
     concatenated: the overriding side first."""
     schema = dict(DEFAULT)
     schema["map"] = []
+    schema["map_tail"] = []
     for cfg in reversed(configs):
         first = cfg.get("chain", "FIRST") == "FIRST"
         for p in PARAMS:
@@ -125,7 +126,12 @@ def effective(configs):
                     schema[p] = cfg[p]
                 schema["_set_" + p] = True
         if "map" in cfg:
-            schema["map"] = ([cfg["map"]] + schema["map"]) if first else (schema["map"] + [cfg["map"]])
+            if first:
+                schema["map"] = [cfg["map"]] + schema["map"]
+            else:
+                # Chain.LAST puts this provider behind everything that follows it, the builtin defaults included
+                # (whose map skips private fields at dumping)
+                schema["map_tail"] = schema["map_tail"] + [cfg["map"]]
     return schema
 
 
@@ -162,19 +168,23 @@ def field_paths(spec, schema, side):
             continue
         gen = generated_key(spec, schema, idx)
         path = (gen,)
-        for variant in schema["map"]:
-            hit = False
-            for matcher, result in MAP_VARIANTS[variant](spec):
-                if matcher(idx, field):
-                    path = resolve(result(idx, field), gen)
-                    hit = True
-                    break
-            if hit:
-                break
+
+        def lookup(variants):
+            for variant in variants:
+                for matcher, result in MAP_VARIANTS[variant](spec):
+                    if matcher(idx, field):
+                        return True, resolve(result(idx, field), gen)
+            return False, None
+
+        hit, found = lookup(schema["map"])
+        if hit:
+            path = found
+        elif side == "out" and field[0].startswith("_"):
+            path = None     # private fields are skipped at dumping unless mapped
         else:
-            # private fields are skipped at dumping unless mapped
-            if side == "out" and field[0].startswith("_"):
-                path = None
+            hit, found = lookup(schema.get("map_tail", []))
+            if hit:
+                path = found
         if path is not None:
             only = schema["only"]
             if _matches(schema["skip"], idx, field) or (only is not None and not _matches(only, idx, field)):
